@@ -187,12 +187,15 @@ def crosscheck(w, c, nc, rng, n):
     from .vals import Err, Sym
     if c.decl.get('bounded_only'):
         return {'cases': 0, 'compared': 0, 'mismatches': []}
+    try:
+        fn = c.funcref()
+    except Exception:
+        return {'cases': 0, 'compared': 0, 'mismatches': []}        # no body in the source to run the executor on
     samples = nc.sample_inputs(rng, 400)
     rng.shuffle(samples)
     compared = 0
     mism = []
     viol = []
-    fn = c.funcref()
     tried = 0
     for vals in samples:
         if compared >= n or tried >= 4 * n:
